@@ -30,7 +30,11 @@ from ._logger import QuietLogger, log
 from ._protocol.incoming import DNSIncoming
 from ._transport import _WrappedTransport, make_wrapped_transport
 from ._utils.time import current_time_millis, millis_to_seconds
-from .const import _DUPLICATE_PACKET_SUPPRESSION_INTERVAL, _MAX_MSG_ABSOLUTE
+from .const import (
+    _DUPLICATE_PACKET_SUPPRESSION_INTERVAL,
+    _MAX_MSG_ABSOLUTE,
+    _MDNS_PORT,
+)
 
 if TYPE_CHECKING:
     from ._core import Zeroconf
@@ -193,6 +197,13 @@ class AsyncListener:
     ) -> None:
         """Deal with incoming query packets.  Provides a response if
         possible."""
+        if port != _MDNS_PORT:
+            # A legacy unicast query is a querier of its own: it has no
+            # part in the truncated query another querier on the same
+            # address may be in the middle of sending from the mDNS port
+            self._query_handler.handle_assembled_query([msg], addr, port, transport, v6_flow_scope)
+            return
+
         if not msg.truncated:
             self._respond_query(msg, addr, port, transport, v6_flow_scope)
             return
